@@ -11,9 +11,14 @@ def make(**kw):
     if c["inj_root"] >= 2: c["defroot"] = 0x3fff
     return c
 
+def eff_cap(c):
+    """cap = 0 means: no TaskCapacityN<> in the machine's configuration; the library then uses the number of states (TaskCapacityN<255> means the
+    same thing - 255 is the library's marker for 'not configured' - so 255 is never used as a configured capacity)"""
+    return c["cap"] if c["cap"] > 0 else c["n"]
+
 def cfg_line(c):
     return ("cfg n=%d head=%d manual=%d limit=%d cap=%d payload=%d inj_root=%d inj_state=%d plans=%d serial=%d history=%d log=%s defroot=%x defstate=%x payloadkind=%d ctx=%d"
-            % (c["n"], c["head"], c["manual"], c["limit"], c["cap"], 1 if c["payload"] else 0, c["inj_root"], c["inj_state"],
+            % (c["n"], c["head"], c["manual"], c["limit"], eff_cap(c), 1 if c["payload"] else 0, c["inj_root"], c["inj_state"],
                c["plans"], c["serial"], c["history"], c["log"], c["defroot"], c["defstate"], c["payload"], c["ctx"]))
 
 def flags(c):
@@ -33,8 +38,8 @@ def flags(c):
     return f
 
 def name(c):
-    return "n%d h%d m%d L%d C%d p%d x%d ir%d is%d P%dS%dH%d log=%s dr%x ds%x" % (
-        c["n"], c["head"], c["manual"], c["limit"], c["cap"], c["payload"], c["ctx"], c["inj_root"], c["inj_state"],
+    return "n%d h%d m%d L%d C%s p%d x%d ir%d is%d P%dS%dH%d log=%s dr%x ds%x" % (
+        c["n"], c["head"], c["manual"], c["limit"], str(c["cap"]) if c["cap"] > 0 else "default(%d)" % c["n"], c["payload"], c["ctx"], c["inj_root"], c["inj_state"],
         c["plans"], c["serial"], c["history"], c["log"], c["defroot"], c["defstate"]) + ("".join(" +" + x.replace("FFSM2_", "") for x in c.get("xf", ()))) + (" template-api" if c.get("tapi") else "") + (" state-data" if c.get("sdata") else "") + (" const-callbacks" if c.get("constcb") else "")
 
 def build(c, variant, extra_flags=(), cxx="g++", std="c++11", opt="-O0"):
